@@ -11,7 +11,10 @@ import (
 // number of decisions of a run (pct change points are drawn below it).
 func Sched(t *rapid.T, horizon int) simrt.Sched {
 	s := simrt.Sched{Seed: rapid.Uint64().Draw(t, "schedseed")}
-	switch rapid.IntRange(0, 2).Draw(t, "policy") {
+	switch rapid.IntRange(0, 4).Draw(t, "policy") {
+	case 3, 4:
+		s.Policy = "preempt"
+		s.Points = rapid.SliceOfN(rapid.IntRange(0, horizon/4), 0, 3).Draw(t, "points")
 	case 0:
 		s.Policy = "pct"
 		s.Changes = rapid.SliceOfN(rapid.IntRange(0, horizon), 0, 4).Draw(t, "changes")
